@@ -267,7 +267,8 @@ class AbstractCodeGen(object):
         'RFC-1212': {'OBJECT-TYPE': [('SNMPv2-SMI', 'OBJECT-TYPE')]},
         # XXX 'IndexSyntax': ???
         'RFC1213-MIB': updateDict(dict(commonSyms['RFC1158-MIB/RFC1213-MIB']),
-                                  (('PhysAddress', [('SNMPv2-TC', 'PhysAddress')]),)),
+                                  (('PhysAddress', [('SNMPv2-TC', 'PhysAddress')]),
+                                   ('ipRoutingDiscards', [('IP-MIB', 'ipRoutingDiscards')]))),
         'RFC-1215': {'TRAP-TYPE': [('SNMPv2-SMI', 'TRAP-TYPE')]}
     }
 
